@@ -19,7 +19,9 @@ META = {
         "strict_states on/off, rendered in one of several declaration styles; exhaustive over all "
         "edge sets x flag subsets x strict for n<=3 (quick) and additionally n=4 with initial={s0} "
         "(thorough), seeded sampling for n=4..5 incl. duplicate edges, from_.any(), internal "
-        "transitions, Event() without transitions, no events. distinct_nontrivial = distinct "
+        "transitions, Event() without transitions, no events. "
+        "sampled cases vary the state declaration too: shared display names, States({...}), States.from_enum over an IntEnum from 0 with scalar or list final=. "
+        "distinct_nontrivial = distinct "
         "(n, edge multiset, initial set, final set, strict, extras) tuples with n>=2 states."
     ),
     "assumptions": [
